@@ -94,7 +94,7 @@ for d in sorted(glob.glob(V + '/benign/C*')):
         notes = ' '.join(f1.get('notes', []))
         ben.append(f"| {k} | {kind} | {' '.join(f1.get('checks_run', f0.get('checks_run', [])))} | {a0} | {a1} | {notes or '-'} |")
 bout = [f"{ntotal} behaviour-preserving changes; first run: {nfirst} raised an alarm; with the corrected machinery: {nfinal}.", "",
-        "| change | kind | checks run | alarms, first run | alarms, current machinery | re-bindings used |", "|---|---|---|---|---|---|"] + ben
+        "| change | nominal kind | checks run | alarms, first run | alarms, current machinery | re-bindings used |", "|---|---|---|---|---|---|"] + ben
 put('benign', bout)
 
 open(p, 'w').write(s)
